@@ -45,7 +45,9 @@ RULE = ("explicit-state BFS per configuration (data type dna/standard/continuous
         "export_character_indices with every index subset; export_character_subset with every recorded subset by label "
         "and by object; concatenate of lists containing the current matrix) is applied to a fresh rebuild, up to the "
         "depth and column bounds; for DNA additionally concatenate_from_streams over every list of <= 3 pool matrices "
-        "written as FASTA / PHYLIP text; a case = one transition (state, operation, argument); non-trivial = the namespace has "
+        "written as FASTA / PHYLIP text; plus (>= 2 taxa) concatenate of 2-3 sources where one source, in every list "
+        "position, takes every row-length pattern over {missing,0,1,2,3} per taxon (DNA: also as FASTA streams); "
+        "a case = one transition (state, operation, argument); non-trivial = the namespace has "
         ">= 2 taxa and the matrices involved hold at least one cell")
 ASSUMPTIONS = [
     "a matrix's state for these operations is its label, its row store (taxon -> cell values, compared by state symbol / "
@@ -57,8 +59,10 @@ ASSUMPTIONS = [
     "value list of the receiver/result may be one of the argument's), so that rebuilding arguments freshly for the "
     "next operation loses nothing",
     "argument domains: concatenate() is documented for matrices of one type over one namespace, all taxa present, "
-    "rectangular: for lists with a missing-taxon or ragged member only termination and unchanged arguments are "
-    "demanded; a foreign-namespace member must give ValueError; fill/pack sizes are None, max, max+1 (never below "
+    "rectangular: a list with a missing-taxon or ragged member must either be refused with the documented ValueError "
+    "(arguments unchanged) or its result must satisfy the statement in full (rows = per-taxon concatenation; the "
+    "recorded subsets match the sources one-to-one and each selects, for every taxon, exactly that taxon's sequence "
+    "in its source); a foreign-namespace member must give ValueError; fill/pack sizes are None, max, max+1 (never below "
     "the longest row); index sets stay inside range(longest row); remove_sequences on a taxon without a row must give "
     "the documented KeyError (rows named before it may or may not have been removed)",
     "labels, subset names and the presence/absence of subsets on the result of a mutator or export are the library's "
@@ -478,6 +482,72 @@ def concat_plan(elems):
     return out
 
 
+def raggedness_class(rows):
+    """pattern class of one source matrix (never its concrete lengths)"""
+    if not is_full(rows):
+        return "taxa-missing"
+    lens = [len(r) for r in rows]
+    if len(set(lens)) <= 1:
+        return "rectangular"
+    if lens[0] == max(lens):
+        return "first-row-longest"
+    if lens[0] == min(lens):
+        return "first-row-shortest"
+    return "first-row-middle"
+
+
+def source_class(sources):
+    """class of the first source that is outside concatenate's documented domain"""
+    for rows in sources:
+        c = raggedness_class(rows)
+        if c != "rectangular":
+            return c
+    return "rectangular"
+
+
+def judge_concat(sources, res_rows, res_subsets):
+    """The statement in full for an ACCEPTED list: sources = [rows per taxon]; returns (feature, message) | None.
+    rows: every taxon's row is the concatenation of its sequences in argument order (a source that lacks the
+    taxon contributes nothing); subsets: the recorded subsets can be matched one-to-one with the sources so
+    that the columns a subset names are, for every taxon, exactly that taxon's sequence in that source."""
+    n = len(res_rows)
+    for i in range(n):
+        want = ()
+        anyrow = False
+        for rows in sources:
+            if rows[i] is not None:
+                anyrow = True
+                want = want + rows[i]
+        got = res_rows[i]
+        if (got is None and anyrow) or (got is not None and got != want):
+            return ("wrong-rows", "row of taxon %s is %s, the concatenation of its sequences is %s" % (
+                TAXA[i], show_rows((got,))[3:-1], show_rows((want,))[3:-1]))
+    if len(res_subsets) != len(sources):
+        return ("subset-count", "%d subsets recorded for %d sources" % (len(res_subsets), len(sources)))
+
+    def covers(idx, rows):
+        chosen = set(idx)
+        for i in range(n):
+            if res_rows[i] is None:
+                continue
+            got = tuple(c for j, c in enumerate(res_rows[i]) if j in chosen)
+            if got != (rows[i] or ()):
+                return False
+        return True
+
+    for perm in itertools.permutations(range(len(sources))):
+        if all(covers(res_subsets[perm[k]][1], sources[k]) for k in range(len(sources))):
+            return None
+    k = [k for k in range(len(sources)) if k < len(res_subsets) and not covers(res_subsets[k][1], sources[k])]
+    k = k[0] if k else 0
+    chosen = set(res_subsets[k][1])
+    return ("subset-not-the-source-columns",
+            "subset %r (columns %s) selects %s from the result %s, source #%d holds %s" % (
+                res_subsets[k][0], list(res_subsets[k][1]),
+                show_rows(tuple(None if r is None else tuple(c for j, c in enumerate(r) if j in chosen) for r in res_rows)),
+                show_rows(res_rows), k + 1, show_rows(sources[k])))
+
+
 def index_subsets(L, b):
     """every subset of range(L) up to the bound; beyond it the empty set, everything, every
     single column, every all-but-one and every contiguous range"""
@@ -847,11 +917,14 @@ def check_transition(cfg, state, op, ctx, b, measure=False, prefix=None):
     ok = True
     if st == "exc":
         ctx.count("outcome:%s" % type(val).__name__)
-        good = (exp_exc == "free" or (exp_exc == "value" and isinstance(val, ValueError))
+        if exp_exc == "free" and isinstance(val, ValueError):
+            ctx.count("concatenate_outside_domain_refused")
+        good = ((exp_exc in ("free", "value") and isinstance(val, ValueError))
                 or (exp_exc == "key" and isinstance(val, KeyError)))
         if not good:
             V("%s|exception:%s" % (s_site, type(val).__name__), "raised %r, expected %s" % (
-                val, {None: "no exception", "value": "ValueError (foreign namespace)", "key": "KeyError"}[exp_exc]))
+                val, {None: "no exception", "value": "ValueError (foreign namespace)", "key": "KeyError",
+                      "free": "the documented ValueError or a correct result"}[exp_exc]))
             ok = False
     else:
         ctx.count("outcome:returned")
@@ -926,7 +999,12 @@ def check_transition(cfg, state, op, ctx, b, measure=False, prefix=None):
             V("%s|inconsistent-row-store" % s_site, "; ".join(probs))
             return None
         if exp_exc == "free":
-            ctx.count("concatenate_outside_domain_returned")
+            # a list with a ragged / incomplete member was ACCEPTED: the statement must hold in full
+            ctx.count("concatenate_outside_domain_accepted")
+            srcs = [w.arg_snapshot(a, state)[2] for a in op[1]]
+            j = judge_concat(srcs, rsnap[1], rsnap[2])
+            if j:
+                V("concatenate|ragged-source|%s|%s" % (source_class(srcs), j[0]), j[1])
             return None
         if rsnap[1] != exp_rows:
             V("%s|%s" % (s_site, row_feature(k, rows, rsnap[1], exp_rows)),
@@ -1006,6 +1084,25 @@ def stream_lists(cfg, b):
     return out
 
 
+def judge_streams_result(res, sources, n):
+    """judge_concat for a result whose namespace was made by the reader: rows are matched by taxon label"""
+    if not isinstance(res, cmm.CharacterMatrix):
+        return ("not-a-matrix", "returned %r" % (res,))
+    taxa = list(res.taxon_namespace._taxa)
+    labels = [t._label for t in taxa]
+    if len(set(labels)) != len(labels) or any(l not in TAXA[:n] for l in labels):
+        return ("wrong-namespace", "taxa of the result: %s" % (labels,))
+    rsnap, probs = snapshot(res, taxa)
+    if probs:
+        return ("inconsistent-row-store", "; ".join(probs))
+    rows = [None] * n
+    for l, r in zip(labels, rsnap[1]):
+        rows[TAXA.index(l)] = r
+    if shared_rows(res):
+        return ("rows-share-one-object", "two rows of the result are one object")
+    return judge_concat(sources, tuple(rows), rsnap[2])
+
+
 def check_streams(cfg, schema, lst, ctx, b):
     import io
     cfg = (cfg[0], int(cfg[1]))
@@ -1035,10 +1132,13 @@ def check_streams(cfg, schema, lst, ctx, b):
             V("concatenate_from_streams|exception:%s" % type(val).__name__, "raised %r on matrices that all hold every taxon" % (val,))
         return
     ctx.count("outcome:returned")
-    if not valid:
-        ctx.count("concatenate_outside_domain_returned")
-        return
     res = val
+    if not valid:
+        ctx.count("concatenate_outside_domain_accepted")
+        j = judge_streams_result(res, [P[k][1] for k in lst], n)
+        if j:
+            V("concatenate_from_streams|ragged-source|%s|%s" % (source_class([P[k][1] for k in lst]), j[0]), j[1])
+        return
     if type(res) is not CLS[dtype]:
         V("concatenate_from_streams|not-a-new-matrix-of-the-same-type", "returned %r" % (res,))
         return
@@ -1058,6 +1158,121 @@ def check_streams(cfg, schema, lst, ctx, b):
     if sorted(x[1] for x in rsnap[2]) != sorted(plan["ranges"]):
         V("concatenate_from_streams|wrong-subsets", "recorded subsets %s, the sources' column ranges are %s" % (
             [(x[0], list(x[1])) for x in rsnap[2]], [list(r) for r in plan["ranges"]]))
+
+
+# ---------------------------------------------------------------------------
+# ragged / incomplete sources (E1 layer): one source with EVERY pattern of row lengths over
+# {missing, 0, 1, 2, 3} per taxon, in every position of a list of 2-3 sources
+
+RAGGED_GRID = ("ACG", "CGT", "GTA")           # cells of the patterned source (row i truncated to its length)
+RAGGED_OTHERS = {"P": ("TT", "AA", "CC"), "Q": ("G", "T", "A")}     # the rectangular companions
+ARRANGEMENTS = ("RP", "PR", "RPQ", "PRQ", "PQR")
+
+
+def ragged_patterns(n):
+    return list(itertools.product((None, 0, 1, 2, 3), repeat=n))
+
+
+def ragged_sources(cfg, pattern, arr):
+    """[(label, rows)] in list order; labels g1.. by position"""
+    tr = TR[cfg[0]]
+    n = cfg[1]
+    out = []
+    for pos, who in enumerate(arr):
+        if who == "R":
+            rows = tuple(None if L is None else tuple(tr[c] for c in RAGGED_GRID[i][:L]) for i, L in enumerate(pattern))
+        else:
+            rows = tuple(tuple(tr[c] for c in r) for r in RAGGED_OTHERS[who][:n])
+        out.append(("g%d" % (pos + 1), rows))
+    return out
+
+
+def check_ragged(cfg, pattern, arr, via, ctx, b):
+    import io
+    cfg = (cfg[0], int(cfg[1]))
+    dtype, n = cfg
+    pattern = tup(pattern)
+    srcs = ragged_sources(cfg, pattern, arr)
+    klass = raggedness_class(srcs[arr.index("R")][1])
+    site_ = "concatenate" if via == "concatenate" else "concatenate_from_streams"
+    py = "%s.%s([%s])" % (CLS[dtype].__name__, site_, ", ".join("%s=%s" % (lab, show_rows(rows)) for lab, rows in srcs))
+    case = {"kind": "ragged", "cfg": cfg, "pattern": pattern, "arr": arr, "via": via, "py": py}
+
+    def V(sig, msg):
+        ctx.violation(sig, "%s   [%s %d taxa; call: %s]" % (msg, dtype, n, py), case)
+
+    hold = {}
+
+    def make():
+        if via == "concatenate":
+            ns = TaxonNamespace(list(TAXA[:n]))
+            ms = [build_matrix(dtype, ns, lab, rows) for lab, rows in srcs]
+            hold["ns"], hold["ms"] = ns, ms
+            hold["ids"] = set()
+            for m in ms:
+                hold["ids"] |= seq_ids(m)
+            return None, (lambda: CLS[dtype].concatenate(ms))
+        streams = [io.StringIO(as_text(rows, "fasta")) for lab, rows in srcs]
+        return None, (lambda: CLS[dtype].concatenate_from_streams(streams, "fasta"))
+
+    st, val, _w, nlines = execute(make, via == "concatenate")
+    if nlines is not None and st != "hang":
+        ctx.maximum("lines_of_a_terminating_call", nlines)
+    if st == "hang":
+        ctx.count("outcome:hang")
+        V("%s|ragged-source|%s|hang" % (site_, klass), "does not terminate: more than %d lines executed, last at %s" % (LINE_BUDGET, val))
+        return
+    if via == "concatenate":
+        for (lab, rows), m in zip(srcs, hold["ms"]):
+            snap, probs = snapshot(m, list(hold["ns"]._taxa))
+            if probs or snap != (lab, rows, ()):
+                V("concatenate|argument-changed", "source %s changed: now %s" % (lab, probs or pretty(snap)))
+            if shared_rows(m):
+                V("concatenate|rows-share-one-object", "two rows of source %s are one object" % lab)
+    valid = klass == "rectangular"
+    if st == "exc":
+        ctx.count("outcome:%s" % type(val).__name__)
+        if valid or (via == "concatenate" and not isinstance(val, ValueError)):
+            V("%s|%s|exception:%s" % (site_, "ragged-source|" + klass if not valid else "rectangular-sources", type(val).__name__),
+              "raised %r" % (val,))
+        else:
+            ctx.count("ragged_or_incomplete_source:refused")
+        return
+    ctx.count("outcome:returned")
+    ctx.count("ragged_or_incomplete_source:accepted" if not valid else "rectangular_sources:accepted")
+    res = val
+    if via == "concatenate":
+        if type(res) is not CLS[dtype] or res.taxon_namespace is not hold["ns"]:
+            V("concatenate|not-a-new-matrix-of-the-same-type", "returned %r" % (res,))
+            return
+        rsnap, probs = snapshot(res, list(hold["ns"]._taxa))
+        if probs:
+            V("concatenate|inconsistent-row-store", "; ".join(probs))
+            return
+        if shared_rows(res):
+            V("concatenate|rows-share-one-object", "two rows of the result are one object")
+        if hold["ids"] & seq_ids(res):
+            V("concatenate|row-shared-with-argument", "a row object of the result is one of a source's own")
+        j = judge_concat([rows for lab, rows in srcs], rsnap[1], rsnap[2])
+    else:
+        j = judge_streams_result(res, [rows for lab, rows in srcs], n)
+    if j:
+        V("%s|%s|%s" % (site_, "ragged-source|" + klass if not valid else "rectangular-sources", j[0]), j[1])
+
+
+def ragged_items(cfg):
+    """(pattern, arrangement, via) for one configuration"""
+    dtype, n = cfg
+    out = []
+    if n < 2:
+        return out
+    for pat in ragged_patterns(n):
+        for arr in ARRANGEMENTS:
+            out.append((pat, arr, "concatenate"))
+            # as FASTA text (DNA): rows must exist and be non-empty to be written
+            if dtype == "dna" and any(L is not None for L in pat) and all(L is None or L > 0 for L in pat):
+                out.append((pat, arr, "streams"))
+    return out
 
 
 # ---------------------------------------------------------------------------
@@ -1087,6 +1302,20 @@ def run_starts(chunk, ctx):
                 ctx.violation("observation|public-view-differs", pv, {"kind": "pool", "cfg": cfg, "index": j})
             ctx.count("pool_matrices")
             out.append((snap, ("start", j)))
+        return out
+    if chunk["part"] == "ragged":
+        for pat, arr, via in chunk["items"]:
+            pat = tup(pat)
+            ctx.case((cfg, "E1r", pat, arr, via), nontrivial=True)
+            ctx.count("transitions")
+            ctx.count("calls:%s(ragged/incomplete source layer)" % ("concatenate" if via == "concatenate" else "concatenate_from_streams"))
+            ctx.count("ragged_layer:source-class:" + raggedness_class(ragged_sources(cfg, pat, arr)[arr.index("R")][1]))
+            check_ragged(cfg, pat, arr, via, ctx, b)
+            if arr == "PRQ" and pat[0] == 3 and pat[-1] == 1 and via == "concatenate":
+                ctx.sample({"layer": "E1 ragged source", "config": "%s, %d taxa" % cfg,
+                            "sources": {lab: show_rows(rows) for lab, rows in ragged_sources(cfg, pat, arr)},
+                            "oracle": "documented ValueError, or rows = per-taxon concatenation and every recorded subset "
+                                      "selects exactly its source's sequence for every taxon"}, 1)
         return out
     if chunk["part"] == "streams":
         for schema, lst in chunk["lists"]:
@@ -1248,6 +1477,9 @@ def explore(tier, runner):
         lists = concat_lists_pool_only(cfg, b, len(pool(cfg, b)))
         for i in range(0, len(lists), 40):
             chunks.append({"cfg": cfg, "tier": tier, "part": "concat", "lists": lists[i:i + 40]})
+        items = ragged_items(cfg)
+        for i in range(0, len(items), 80):
+            chunks.append({"cfg": cfg, "tier": tier, "part": "ragged", "items": items[i:i + 80]})
         if cfg[0] == "dna":
             lists = stream_lists(cfg, b)
             for i in range(0, len(lists), 60):
@@ -1345,6 +1577,8 @@ def replay(case, ctx):
         cfg = (case["cfg"][0], int(case["cfg"][1]))
         prefix = (tup(case["prefix_state"]), tup(case["prefix_op"])) if "prefix_op" in case else None
         check_transition(cfg, tup(case["state"]), tup(case["op"]), ctx, b, prefix=prefix)
+    elif k == "ragged":
+        check_ragged(tuple(case["cfg"]), tup(case["pattern"]), case["arr"], case["via"], ctx, b)
     elif k == "streams":
         check_streams(tuple(case["cfg"]), case["schema"], tup(case["list"]), ctx, b)
     elif k == "pool":
